@@ -13,7 +13,7 @@ TxQ == {T("xfer", 1, 0), T("xfer", 1, 1), T("create", 1, 0), T("call", 1, 1), K(
         T("badsig", 0, 0)}
 BlocksQ == Seqs(TxQ, 2)
 \* large alphabet for simulation
-TxL == {T(c, a, n) : c \in {"xfer", "create", "call", "revert"}, a \in {1, 2}, n \in 0..2}
+TxL == {T(c, a, n) : c \in {"xfer", "create", "createfail", "call", "revert"}, a \in {1, 2}, n \in 0..2}
          \cup {K(a, n, k, "a") : a \in {1, 2}, n \in 0..2, k \in {"k1", "k2"}}
          \cup {T("kvbad", 1, 0), T("badsig", 0, 0), T("junk", 0, 0), T("empty", 0, 0), T("value", 1, 1), T("admok", 2, 0)}
 BlocksL == Seqs(TxL, 2)
